@@ -23,12 +23,16 @@ TIE = os.path.join(COQ, "Tie")
 ORDER = ["side_partial_cmp", "ub_partial_cmp", "ub_matches", "ub_try_into_range", "complement_std_range",
          "ub_new", "ub_from_range", "ub_unpack", "ub_complement",
          "ubl_bounds_only", "ubl_is_sortable", "ubl_is_sorted", "ubl_has_negative_indices", "ubl_is_forward_only",
-         "fast_try_from", "stream_try_from", "side_from_str", "ub_from_str"]
+         "fast_try_from", "stream_try_from", "side_from_str", "ub_from_str",
+         "ubl_unpack", "ubl_complement"]
 DEPS = {"ub_partial_cmp": ["side_partial_cmp"], "ub_from_range": ["ub_new"], "ub_unpack": ["ub_new", "ub_try_into_range"],
         "ub_complement": ["ub_try_into_range", "complement_std_range", "ub_from_range", "ub_new"],
         "ubl_is_sortable": ["ubl_bounds_only"], "ubl_is_sorted": ["ubl_bounds_only", "ub_partial_cmp", "side_partial_cmp"],
         "ubl_has_negative_indices": ["ubl_bounds_only"],
         "ub_from_str": ["side_from_str", "ub_new"],
+        "ubl_unpack": ["ub_unpack", "ub_new", "ub_try_into_range"],
+        "ubl_complement": ["ub_complement", "ub_try_into_range", "complement_std_range", "ub_from_range", "ub_new", "ubl_unpack",
+                           "ubl_has_negative_indices", "ubl_bounds_only"],
         "ubl_is_forward_only": ["ubl_bounds_only", "ubl_is_sortable", "ubl_is_sorted", "ubl_has_negative_indices", "ub_partial_cmp", "side_partial_cmp"]}
 # which properties' theorems rest on which translated function
 USES = {
@@ -50,6 +54,8 @@ USES = {
     "stream_try_from": ["C03", "C19"],
     "side_from_str": ["C12", "C18"],
     "ub_from_str": ["C12", "C18"],
+    "ubl_unpack": ["C07", "C08", "C13"],
+    "ubl_complement": ["C13", "C15"],
 }
 LEMMA = {n: "tie_" + n for n in ORDER}
 
@@ -104,7 +110,7 @@ def tie_check():
     model_vos += [os.path.join(COQ, "Model", "Stream.vo"), os.path.join(COQ, "Model", "FastLane.vo"), os.path.join(COQ, "Proofs", "C19.vo"),
                   os.path.join(COQ, "Proofs", "C03Full.vo")]
     model_vos += [os.path.join(COQ, "Model", "BoundsParse.vo"), os.path.join(COQ, "Proofs", "C18Iff.vo")]
-    for b in ("RsPrelude", "TieBase", "RsOpt", "RsStr"):
+    for b in ("RsPrelude", "TieBase", "RsOpt", "RsStr", "RsList"):
         src = os.path.join(TIE, b + ".v")
         if not _fresh(b, [src] + (model_vos[:1] if b not in ("RsOpt", "RsStr") else [model_vos[0], model_vos[4], os.path.join(COQ, "Model", "BoundsParse.vo")]) + base):
             rc, out = _coqc(b)
